@@ -3,6 +3,7 @@ From Coq Require Import List ZArith Bool.
 Import ListNotations.
 From TI Require Import lib.Term lib.TermFacts lib.Rect lib.Lines model.Block model.GfxRender model.Padding
      proofs.BlockRect proofs.GfxRect proofs.PadProofs.
+From TI Require gen.Pure proofs.PureTie.
 Open Scope Z_scope.
 
 (** exact dimensions of an aligned padding: the two sides of an axis sum to
@@ -119,3 +120,25 @@ Proof.
   destruct (old_dims W H ha va w h) as [[[l t] r] b]. intros. apply pad_rect; assumption.
 Qed.
 Print Assumptions C05_format_render_rect.
+
+(** *** the tie to the source, as theorems (T): [gen/Pure.v] is regenerated from
+    [padding.py] on every run by [harness/tx/tx_pure.py]; for ALL arguments the translated
+    functions are the model functions the theorems above are about *)
+Theorem C05_source_exact_dimensions_is_model :
+  forall rel W H (ha va : nat) w h, (ha < 3)%nat -> (va < 3)%nat ->
+    TI.gen.Pure.aligned_exact_dimensions rel W H (Z.of_nat ha) (Z.of_nat va) w h
+    = if rel then None else Some (aligned_dims W H ha va w h).
+Proof. exact TI.proofs.PureTie.aligned_exact_dimensions_is_model. Qed.
+Print Assumptions C05_source_exact_dimensions_is_model.
+
+Theorem C05_source_resolve_is_model :
+  forall tw th W H,
+    Padding.resolve tw th W H
+    = if Padding.relative W H then TI.gen.Pure.aligned_resolve_relative W H tw th else (W, H).
+Proof. exact TI.proofs.PureTie.aligned_resolve_is_model. Qed.
+Print Assumptions C05_source_resolve_is_model.
+
+Theorem C05_source_padded_size_is_model :
+  forall l t r b w h, Padding.padded_size (l, t, r, b) w h = TI.gen.Pure.padded_size l t r b w h.
+Proof. exact TI.proofs.PureTie.padded_size_is_model. Qed.
+Print Assumptions C05_source_padded_size_is_model.
